@@ -38,19 +38,21 @@ RULE = ("cases = (pattern, path, base path, file mode, syntax) tuples: paths fro
 EXPLANATION = ("Lean theorems (all lengths, both syntaxes, about the repaired code 4dc0347): the backtracking loop of PathMatch::match "
                "terminates within matchFuel iterations and decides exactly the declarative rule SpecMatch (glob of the canonical pattern "
                "against a part of the canonical path that starts at the start / behind a separator and ends at a separator / the end) "
-               "for every pattern (a run of three or more '*' may be read in any way); PathMatch::match as a whole (fast paths, real/relative patterns, directory "
-               "patterns, both iterators) = PathMatchSpec inside the documented domain; PathIterator reads the documented canonical form "
-               "for every root that ends with a separator and, without a root, no '..' above the start; lister output = sorted, "
-               "duplicate-free, exactly accepted and not ignored on the way down for every directory tree, matcher and acceptance test. "
-               "The behaviour before the repair is kept as counterexample theorems (Variant.old). simplifyPath (third-party simplecpp) is "
-               "modelled line by line incl. the size_t wrap-around; idempotence and canonical form are REFUTED by counterexample theorems "
-               "(known finding C31-5), no positive theorem is proved for it (correspondence only). Tie: in-process correspondence of all "
-               "modelled functions, extension tables extracted from lib/path.cpp. Outside the model: windows build branches "
-               "(#ifdef _WIN32), symlinks, stat/opendir failures, DT_UNKNOWN, Emacs marker probing. The -i path of the command line is "
-               "inside: parseFromArgs' handling of -i values (argument loop, quotation marks, separators) is modelled, proved to "
-               "preserve the documented rule for the pattern as the user wrote it (cli_ignore_eq_rule, cli_selection_exact), tied "
-               "in-process to the real CmdLineParser and end-to-end to the built binary (Checking lines on real trees). Still "
-               "outside: --file-filter, project imports (importproject.cpp), suppressions.cpp, de-duplication across path names.")
+               "for every pattern; PathMatch::match as a whole (fast paths, real/relative patterns, directory patterns, both iterators) "
+               "= PathMatchSpec inside the documented domain - the rule does not mention the code's `pattern == path` shortcut, which is "
+               "proved covered by the rule (fast_path_spec) unless the base path is relative and non-empty (finding C31-6, API level only); "
+               "PathIterator reads the documented canonical form for every root that ends with a separator and, without a root, no '..' "
+               "above the start; lister output = sorted, duplicate-free, exactly accepted and not ignored on the way down for every tree, "
+               "matcher and acceptance test; the command line: argument loop for -i / --file-filter / path names, normalisation of the "
+               "-i values, per-path-name listing, file filter, de-duplication across path names = the documented rules applied to the "
+               "values as the user wrote them (cli_select_exact: the function the driver executes, op clisel); suppression file patterns: "
+               "the same theorem at empty base path (suppression_file_pattern_rule; the call site in suppressions.cpp belongs to C23). "
+               "NOT proved, tie only (this clause of the statement is at level 'other'): 'reports them under canonical paths' - spath() = "
+               "simplecpp::simplifyPath, modelled line by line incl. the size_t wrap-around, idempotence and canonical form are REFUTED in "
+               "general by counterexample theorems (known finding C31-5) and no positive theorem is proved; the Checking lines of the "
+               "end-to-end tie are compared with the model's simplifyPathO on every run. Outside the model: windows build branches "
+               "(#ifdef _WIN32), symlinks, stat/opendir failures, DT_UNKNOWN, Emacs marker probing, --file-filter=- / =+, project "
+               "imports (importproject.cpp ignorePaths), every other option of parseFromArgs.")
 THEOREMS = [
     "Cppcheck.PathMatch.match_terminates",
     "Cppcheck.PathMatch.pathmatch_eq_spec",
@@ -75,6 +77,18 @@ THEOREMS = [
     "Cppcheck.FileLister.cli_ignore_eq_rule",
     "Cppcheck.FileLister.cli_selection_exact",
     "Cppcheck.FileLister.cli_simplifyPath_normalisation_counterexample",
+    "Cppcheck.PathMatch.fast_path_spec",
+    "Cppcheck.PathMatch.pathMatch_shortcut_counterexample_relative_base",
+    "Cppcheck.PathMatch.pathMatch_shortcut_counterexample_windows_root",
+    "Cppcheck.PathMatch.suppression_file_pattern_rule",
+    "Cppcheck.FileLister.file_filter_eq_rule",
+    "Cppcheck.FileLister.cli_dedup_spec",
+    "Cppcheck.FileLister.splitArgs_path",
+    "Cppcheck.FileLister.splitArgs_i_separate",
+    "Cppcheck.FileLister.splitArgs_i_joined",
+    "Cppcheck.FileLister.splitArgs_filter",
+    "Cppcheck.FileLister.parseIgnoreArgs_values",
+    "Cppcheck.FileLister.cli_select_exact",
 ]
 MODULES = ["Cppcheck.Props.C31"]
 
@@ -1138,8 +1152,19 @@ def run_corpus(ctx, res, exe, drv):
     res.extra["corpus_cases"] = len(corpus)
 
 
+ASSUMPTIONS = [
+    "byte strings contain no NUL (C strings / file names)",
+    "CanonDomain: the root of a path ends with a separator (not the windows forms C:dir, //.), a string without a root does not climb above its start with '..'",
+    "FastPathOk for pattern == path: base path empty or absolute (relative non-empty base path: finding C31-6)",
+    "command line: the current directory is absolute; -i / --file-filter values that are neither absolute nor ./-relative do not climb above their own start (UserPatternOk / FilterOk)",
+    "directory trees are well formed (distinct sibling names without separator) for Nodup / sortedness; no symbolic links (abspath = canonical path)",
+    "POSIX build: Path::isAbsolute = starts with '/', case-sensitive file system, cppHeaderProbe = false",
+]
+
+
 def run(ctx, res):
     import time
+    res.assumptions = list(ASSUMPTIONS)
     rng = ctx.rng
     thorough = ctx.tier == "thorough"
     t0 = time.time()
